@@ -364,6 +364,13 @@ func c11Eval(u c11Universe, probes []c11Probe, hist []c11Op, s c11State) (issues
 }, sig string) {
 	w := newC11World(u, nil)
 	for i, o := range hist {
+		if i > 0 {
+			// serve the whole probe set between operations too: whatever the container memoises while
+			// serving must not survive the next change
+			for pi := range probes {
+				c11Answer(w, probes[pi])
+			}
+		}
 		if p := w.apply(o); p != "" {
 			issues = append(issues, struct {
 				class, finding, msg string
@@ -516,6 +523,6 @@ func checkC11(run *h.Run) {
 	run.Cov["distinct_probe_signatures"] = sigs.Len()
 	run.Cov["exhaustive"] = true
 	run.Cov["roots"] = u.Roots
-	run.Cov["rule"] = fmt.Sprintf("E2: breadth-first search over operation histories up to depth %d; alphabet Add/Remove of %d services whose root paths collide in every way the mux registration can, Route/RemoveRoute of a dynamic route on %d of them, Handle of %d plain patterns (Add only of unregistered roots, Handle of each pattern once - the property's preconditions). A successor is computed by replaying the history on a fresh real container; in every reached state all %d probes (each service's routes incl. removed ones, root URLs, handler patterns, unknown URL; GET/POST; ServeHTTP and Dispatch) must be answered exactly as by a container built directly from the state's abstract content. States are merged on abstract content (plus the observed probe signature when a state deviates from its fresh twin). Every state is non-trivial.", u.Depth, len(u.Roots), len(u.Dynamic), len(u.Patterns), len(probes))
+	run.Cov["rule"] = fmt.Sprintf("E2: breadth-first search over operation histories up to depth %d; alphabet Add/Remove of %d services whose root paths collide in every way the mux registration can, Route/RemoveRoute of a dynamic route on %d of them, Handle of %d plain patterns (Add only of unregistered roots, Handle of each pattern once - the property's preconditions). A successor is computed by replaying the history on a fresh real container; the probe set is also served between the operations of a history (so that nothing memoised while serving survives a change); in every reached state all %d probes (each service's routes incl. removed ones, root URLs, handler patterns, unknown URL; GET/POST; ServeHTTP and Dispatch) must be answered exactly as by a container built directly from the state's abstract content. States are merged on abstract content (plus the observed probe signature when a state deviates from its fresh twin). Every state is non-trivial.", u.Depth, len(u.Roots), len(u.Dynamic), len(u.Patterns), len(probes))
 	run.Assume = []string{"merged states have the same futures w.r.t. the probe set and alphabet because the oracle has just shown them observationally equal to the fresh-built container"}
 }
